@@ -184,13 +184,13 @@ impl Compound {
             *value *= Rational::new(10u32, 1u32).pow(state.prefix * state.power);
 
             if let Some(conversion) = name.conversion() {
-                apply_conversion(state.power, value, conversion)?;
+                apply_conversion(state.power, value, conversion, other.names.len() == 1)?;
             }
         }
 
         for (name, state) in &self.names {
             if let Some(conversion) = name.conversion() {
-                apply_conversion(-state.power, value, conversion)?;
+                apply_conversion(-state.power, value, conversion, self.names.len() == 1)?;
             }
 
             *value /= Rational::new(10u32, 1u32).pow(state.prefix * state.power);
@@ -252,7 +252,7 @@ impl Compound {
             *lhs *= Rational::new(10u32, 1u32).pow(state.prefix * state.power);
 
             if let Some(conversion) = name.conversion() {
-                apply_conversion(state.power, lhs, conversion)?;
+                apply_conversion(state.power, lhs, conversion, self.names.len() == 1)?;
             }
         }
 
@@ -260,7 +260,7 @@ impl Compound {
             *rhs *= Rational::new(10u32, 1u32).pow(state.prefix * state.power);
 
             if let Some(conversion) = name.conversion() {
-                apply_conversion(state.power, rhs, conversion)?;
+                apply_conversion(state.power, rhs, conversion, other.names.len() == 1)?;
             }
         }
 
@@ -322,7 +322,7 @@ impl Compound {
                     // original factor modifier, which we apply to mod_power to
                     // get the original power back. Then we multiply by `-1`
                     // because we want to shed the multiples here.
-                    apply_conversion(-mod_power, out, conversion)?;
+                    apply_conversion(-mod_power, out, conversion, names.len() == 1)?;
                 }
             }
 
@@ -524,14 +524,18 @@ impl fmt::Display for Compound {
     }
 }
 
+/// Apply the conversion of a unit raised to `pow`. `sole` indicates that the
+/// unit is the only unit of the quantity being converted: scales with a shifted
+/// zero point are only meaningful for such quantities.
 fn apply_conversion(
     pow: i32,
     ratio: &mut Rational,
     conversion: Conversion,
+    sole: bool,
 ) -> Result<(), CompoundError> {
     match conversion {
         Conversion::Methods(methods) => {
-            if pow.abs() != 1 {
+            if pow.abs() != 1 || !sole {
                 return Err(CompoundError);
             }
 
@@ -549,7 +553,7 @@ fn apply_conversion(
             }
         }
         Conversion::Offset(fraction) => {
-            if pow.abs() != 1 {
+            if pow.abs() != 1 || !sole {
                 return Err(CompoundError);
             }
 
